@@ -137,6 +137,13 @@ inline std::string join_dec(std::vector<T> const& v, char const* sep = ",")
     return r;
 }
 
+// user callback that never ends a run (so that the built-in stop rule does not interfere)
+struct never_stop
+{
+    template <typename C>
+    bool operator()(C const&) const { return true; }
+};
+
 // ------------------------------------------------------------------------------------------------
 // arguments
 // ------------------------------------------------------------------------------------------------
